@@ -19,7 +19,8 @@ pub mod vp_try_ax {
     {}
 }
 pub use vp_try_ax::conv_err;
-broadcast use vp_try_ax::axiom_conv_identity;
+// (Verus allows one module-level `broadcast use` per module: the including unit writes
+//  `broadcast use vp_try_ax::axiom_conv_identity;` itself, together with its other broadcast lemmas)
 
 pub assume_specification<T, E> [<std::task::Poll<std::result::Result<T, E>> as std::ops::Try>::branch] (p: std::task::Poll<std::result::Result<T, E>>) -> (r: std::ops::ControlFlow<<std::task::Poll<std::result::Result<T, E>> as std::ops::Try>::Residual, <std::task::Poll<std::result::Result<T, E>> as std::ops::Try>::Output>)
     ensures
